@@ -288,7 +288,44 @@ def check(ctx):
     cpy = [(val, cond) for loc, val, _, cond in ri.stores
            if loc == ("a", SELF, "_nodes") and any(is_call(x, "copy.deepcopy") for x in subterms(val))]
     ctx.ob("C15.R5", init, "Model(copy=True) deep-copies nodes and variables jointly before "
-                           "attaching them", len(cpy) >= 1)
+                           "attaching them -- exactly when copy is requested", len(cpy) >= 1
+           and all([(a, p_) for a, p_ in cond
+                    if (a, not p_) not in {rc[-1] for rc, _, _ in ri.raises if rc}]
+                   == [(n("copy"), True)] for _, cond in cpy),
+           detail=str([[pretty(a)[:30] + "=" + str(p_) for a, p_ in cond] for _, cond in cpy]),
+           stmt="copy guard")
+
+    # ---- duplicate names are rejected by the Model constructor itself
+    from ..domains import concrete as _cc
+    dup_kinds = {}
+    for rc, ex, nd in ri.raises:
+        if not rc:
+            continue
+        atom, pol = rc[-1]
+        if not (pol and atom[0] == "comp" and atom[1] == "list" and len(atom[3]) == 1):
+            continue
+        tgt, it, conds = atom[3][0]
+        if not (it[0] == "call" and it[1][0] == "a" and it[1][2] == "items"
+                and is_call(it[1][1], "collections.Counter") and len(conds) == 1):
+            continue
+        cnt_arg = it[1][1][2][0] if it[1][1][2] else None
+        named = cnt_arg is not None and cnt_arg[0] == "comp" and cnt_arg[2][0] == "a" \
+            and cnt_arg[2][2] == "name"
+        vterm = ("proj", ("iter", it), 1)
+        try:
+            sel = {v for v in range(1, 6) if _cc.evaluate(conds[0], {vterm: v})}
+        except _cc.Unmodelled:
+            sel = None
+        kind = "Var" if any(is_call(x, "isinstance") and x[2][1:] == (("g", f"{NODES}.Var"),)
+                            for x in subterms(cnt_arg or ())) else (
+            "Node" if any(is_call(x, "isinstance") and x[2][1:] == (("g", f"{NODES}.Node"),)
+                          for x in subterms(cnt_arg or ())) else "other")
+        dup_kinds[kind] = (named and atom[2] == ("proj", ("iter", it), 0)
+                           and sel == {2, 3, 4, 5})
+    ctx.ob("C15.R2", init, "Model(...) raises when a node name or a variable name occurs more "
+                           "than once (the name counts are compared with > 1)",
+           dup_kinds.get("Node") is True and dup_kinds.get("Var") is True,
+           detail=str(dup_kinds), stmt="duplicate names " + str(dup_kinds))
 
     # ------------------------------------------------------------------ R8
     # build-time edits of USER nodes must be undone when the nodes leave the model
